@@ -21,6 +21,7 @@ checks report as ANALYSIS-ERROR (exit 2), never as a pass.
 from __future__ import annotations
 
 import ast
+import builtins
 import operator
 from typing import Any, Callable
 
@@ -215,6 +216,10 @@ class Ev:
                 raise _ModelRaise(f"UnboundLocalError: {n.id}")
             if getattr(SAFE_BUILTINS.get(n.id), "_sa_attrs", None):  # a library callable with attributes (chain.from_iterable)
                 return SAFE_BUILTINS[n.id]
+            if self.env.get("__closed_world__") and not hasattr(builtins, n.id):
+                # the environment holds everything the evaluated module can see (an emitted module whose imports
+                # the caller has supplied): a name that is bound nowhere is the program's NameError, not our gap
+                raise _ModelRaise(f"NameError: {n.id}")
             raise self.bad(n, "unbound name")
         if isinstance(n, ast.Attribute):
             base = self.ev(n.value)
